@@ -104,13 +104,9 @@ def Vector_drop_na_signature : List String := ["self"]
 /-- the calls of dataiter/vector.py: Vector.drop_na in the order Python makes them along the source text -/
 def Vector_drop_na_call_order : List String := ["self.is_na", "self[~self.is_na()].copy"]
 
-/-- dataiter/vector.py: Vector.tolist (sha256 of the function source: 2e5a1124d120478c) -/
+/-- dataiter/vector.py: Vector.tolist (sha256 of the function source: 6c6b05c5c3a558ee) -/
 def Vector_tolist (truth : Term → Bool) : Out :=
-  if (truth (Term.app ".is_datetime" [(Term.sym "self")]) && truth (Term.app "In" [(Term.app "getitem" [(Term.app "np.datetime_data" [(Term.app ".dtype" [(Term.sym "self")])]), (Term.int (0 : Int))]), (Term.app "list" [(Term.sym "'ns'"), (Term.sym "'ps'"), (Term.sym "'fs'"), (Term.sym "'as'")])])) then
-    let self' : Term := (Term.app ".as_datetime" [(Term.sym "self"), (Term.sym "'us'")]);
-    Out.ret [] (Term.app ".tolist" [(Term.app "np.where" [(Term.app ".is_na" [self']), (Term.sym "None"), self'])])
-  else
-    Out.ret [] (Term.app ".tolist" [(Term.app "np.where" [(Term.app ".is_na" [(Term.sym "self")]), (Term.sym "None"), (Term.sym "self")])])
+  Out.ret [] (Term.app ".tolist" [(Term.app "np.where" [(Term.app ".is_na" [(Term.sym "self")]), (Term.sym "None"), (Term.sym "self")])])
 
 /-- the decorators of dataiter/vector.py: Vector.tolist, outermost first -/
 def Vector_tolist_decorators : List String := []
@@ -119,7 +115,7 @@ def Vector_tolist_decorators : List String := []
 def Vector_tolist_signature : List String := ["self"]
 
 /-- the calls of dataiter/vector.py: Vector.tolist in the order Python makes them along the source text -/
-def Vector_tolist_call_order : List String := ["self.is_datetime", "np.datetime_data", "self.as_datetime", "self.is_na", "np.where", "np.where(self.is_na(), None, self).tolist"]
+def Vector_tolist_call_order : List String := ["self.is_na", "np.where", "np.where(self.is_na(), None, self).tolist"]
 
 /-- dataiter/vector.py: Vector.equal (sha256 of the function source: e933f960452bc821) -/
 def Vector_equal (truth : Term → Bool) (self_length : Int) (other_length : Int) : Out :=
